@@ -465,6 +465,22 @@ Definition batch_keys_ok (be : backend) (b : batch) : bool :=
      | None => true
      end.
 
+(** what the LSF adapter needs on top: jsrun's per-resource-set counts are
+    positive when declared, an H:M:S walltime is numeric, a batch-level node
+    count is not a false value, the value of "cpus per rs" is printable *)
+Definition lsf_dom (c : case) : bool :=
+  let st := c_step c in
+  count_ok (st_res st) RRsPerNode && count_ok (st_res st) RTasksPerRs
+  && match lookup (s "cpus per rs") (st_res st) with
+     | Some v => if truthy v then safe_tok (render v) else true
+     | None => true
+     end
+  && match declared (st_res st) RWalltime with
+     | Some w => if is_hms w then forallb all_digits (split_on 58 w) else true
+     | None => true
+     end
+  && match lookup (s "nodes") (b_kw (c_batch c)) with Some v => truthy v | None => true end.
+
 Definition H15 (c : case) : bool :=
   let st := c_step c in
   str_eqb (pieces_text (c_cmd c)) (st_cmd st)
@@ -476,7 +492,8 @@ Definition H15 (c : case) : bool :=
   && negb (has (s "cmd") (st_res st)) && negb (has (s "restart") (st_res st))
   && count_ok (st_res st) RNodes && count_ok (st_res st) RTasks
   && forallb (val_safe (st_res st)) res_keys_str
-  && batch_keys_ok (c_be c) (c_batch c).
+  && batch_keys_ok (c_be c) (c_batch c)
+  && (negb (backend_eqb (c_be c) Lsf) || lsf_dom c).
 
 (** * Known findings K6: signature predicates *)
 (** K6a: the documented batch-level [gpus] never reaches a header or launcher *)
@@ -491,14 +508,14 @@ Definition K6_lsf_header (c : case) : bool :=
   backend_eqb (c_be c) Lsf
   && (match effective (c_batch c) (c_step c) RExclusive with Some _ => true | None => false end
       || match effective (c_batch c) (c_step c) RQos with Some _ => true | None => false end).
-(** K6c: LSF cannot generate a launcher invocation for a step that declares
-    nodes only (jsrun needs a task count) *)
-Definition has_launcher (ps : list piece) : bool :=
-  existsb (fun p => match p with PText _ => false | _ => true end) ps.
+(** K6c: LSF cannot generate the launcher invocation of a bare launcher
+    variable for a step that declares nodes only (jsrun needs a task count) *)
+Definition has_bare (ps : list piece) : bool :=
+  existsb (fun p => match p with PBare => true | _ => false end) ps.
 Definition K6_lsf_nodes_only (c : case) : bool :=
   backend_eqb (c_be c) Lsf
   && negb (total_of (c_step c) RNodes =? 0) && (total_of (c_step c) RTasks =? 0)
-  && (has_launcher (c_cmd c) || has_launcher (c_restart c)).
+  && (has_bare (c_cmd c) || has_bare (c_restart c)).
 
 (** * The monitor *)
 Inductive obs := OExc (e : exn) | OScript (sc : script).
